@@ -24,8 +24,8 @@ TRUSTED = ['Coq 8.16.1 kernel + vm_compute (model evaluation); no axioms (Print 
            'harness/src/c08.rs (snapshot comparer, history runner, minimiser) and props/c08.py (classification of failures)']
 UNMODELLED = ['per-operation soundness is NOT proved (stages C/S only, the oracle of stage S runs them on the real code) for: merge_layer_down, '
               'resize_buffer(resize_layer = true) / crop / crop_rect, add_selection_to_mask, inverse_selection, insert/delete row and column, '
-              'scroll_area_*, rotate_layer, make_layer_transparent, stamp_layer_down, paste_clipboard_data / anchor_layer, set_ice_mode, '
-              'set_palette_mode, switch_to_font_page, set/add/remove font, change_font_slot, replace_font_usage, the *_line / erase_row/column wrappers',
+              'scroll_area_*, rotate_layer, stamp_layer_down, paste_clipboard_data / anchor_layer, set_ice_mode, '
+              'set_palette_mode, switch_to_font_page, set/add/remove font, change_font_slot, replace_font_usage',
               'palette, fonts, SAUCE data, ice/palette/font modes are not part of the Coq document (no modelled operation touches them); '
               'they are compared by the stage S oracle',
               'the selection mask (add_selection_to_mask / inverse_selection are unmodelled, so the mask is empty in the modelled histories)',
@@ -89,15 +89,15 @@ DIRECTED = [
     ('B 12 8 0 1 3 0 L 12 8 0 0 1 0 2 5', ['addfont 0']),
     ('B 12 8 0 1 3 0 L 12 8 0 0 1 0 2 5', ['fontpage 2', 'setfont 1']),
     ('B 12 8 0 1 0 0 L 12 8 0 0 1 0 2 5', ['sel 2 1 5 2 0', 'scrup']),
-    ('B 12 8 0 1 0 0 L 12 8 0 0 1 0 2 5', ['jleft', 'delcol', 'palmode 0']),
+    ('B 12 8 0 1 0 0 L 12 8 0 0 1 0 0 5', ['jleft', 'delcol', 'palmode 0']),
 ]
 
 def search(ctx, broken):
     rng = ctx.rng
     cases = []; meta = []
-    def add(doc, ops, kind):
-        cases.append(hist_case(rng.randrange(1000), doc, ops)); meta.append((doc, ops, kind))
-    for doc, ops in DIRECTED: add(doc, ops, 'directed')
+    def add(doc, ops, kind, seed=None):
+        cases.append(hist_case(rng.randrange(1000) if seed is None else seed, doc, ops)); meta.append((doc, ops, kind))
+    for doc, ops in DIRECTED: add(doc, ops, 'directed', seed=0)
     # inputs on which model and implementation disagreed come first
     for b in broken:
         d = b.get('detail') or {}
@@ -117,7 +117,9 @@ def search(ctx, broken):
                 add(doc, [a, b], 'exhaustive-2'); n_ex += 1
     if ctx.thorough:
         # length 3: the two slow operations (flip tables are rebuilt from the glyphs on every call) appear at most once
-        a3 = [a for a in alpha if a not in ('flipy',)]
+        skip3 = {'flipy', 'reml 1', 'clearl 1', 'togvis 1', 'sel 0 0 12 8 0', 'sel 2 0 4 8 2', 'ice 2', 'palmode 3', 'caret 11 7', 'cur 0', 'jlineright',
+                 'erasecol_e', 'scrdown', 'scrright', 'fontpage 1', 'addfont 2', 'lsize 0 14 9', 'resize 1 15 9', 'setc 11 7 66 14 1 0 0'}
+        a3 = [a for a in alpha if a not in skip3]
         doc = exdocs[0]
         for a in a3:
             for b in a3:
@@ -125,7 +127,7 @@ def search(ctx, broken):
                     if (a == 'flipx') + (b == 'flipx') + (c == 'flipx') > 1: continue
                     add(doc, [a, b, c], 'exhaustive-3'); n_ex += 1
     # random histories
-    n_rand = ctx.n(1500, 15000) if not ctx.thorough else 40000
+    n_rand = ctx.n(1500, 8000) if not ctx.thorough else 25000
     for _ in range(n_rand):
         doc, (w, h, nl) = G.gen_doc(rng)
         add(doc, G.gen_history(rng, w, h, rng.choice([4, 8, 12, 20, 40])), 'random')
@@ -215,7 +217,8 @@ def doc_coq(d):
 
 C_OPS = ['setc', 'setc', 'setc', 'setc', 'swap', 'swap', 'resize0', 'addl', 'reml', 'raise', 'lower', 'dup', 'clearl', 'togvis', 'togvis',
          'movel', 'lsize', 'lsize', 'sel', 'sel', 'sel', 'clrsel', 'desel', 'erase', 'flipx', 'flipy', 'jleft', 'jright', 'center', 'center',
-         'caret', 'cur', 'cur', 'mirror', 'U', 'U', 'U', 'U', 'U', 'R', 'R', 'R']
+         'transp', 'transp', 'centerline', 'jlineleft', 'jlineright', 'eraserow', 'eraserow_s', 'eraserow_e', 'erasecol', 'erasecol_s', 'erasecol_e',
+         'caret', 'caret', 'cur', 'cur', 'mirror', 'U', 'U', 'U', 'U', 'U', 'U', 'R', 'R', 'R']
 
 def c_op(rng, w, h):
     f = rng.choice(C_OPS)
@@ -239,7 +242,9 @@ H_NAME = {'resize0': 'resize 0'}
 C_NAME = {'setc': 'SSetc', 'swap': 'SSwap', 'resize0': 'SResize', 'addl': 'SAddl', 'reml': 'SReml', 'raise': 'SRaise', 'lower': 'SLower',
           'dup': 'SDup', 'clearl': 'SClearl', 'togvis': 'STogvis', 'movel': 'SMovel', 'lsize': 'SLsize', 'sel': 'SSel', 'clrsel': 'SClrsel',
           'desel': 'SDesel', 'erase': 'SErase', 'flipx': 'SFlipx', 'flipy': 'SFlipy', 'jleft': 'SJleft', 'jright': 'SJright',
-          'center': 'SCenter', 'caret': 'SCaret', 'cur': 'SCur', 'mirror': 'SMirror', 'U': 'SU', 'R': 'SR'}
+          'center': 'SCenter', 'transp': 'STransp', 'centerline': 'SCenterLine', 'jlineleft': 'SJLineLeft', 'jlineright': 'SJLineRight',
+          'eraserow': 'SEraseRow', 'eraserow_s': 'SEraseRowS', 'eraserow_e': 'SEraseRowE', 'erasecol': 'SEraseCol',
+          'erasecol_s': 'SEraseColS', 'erasecol_e': 'SEraseColE', 'caret': 'SCaret', 'cur': 'SCur', 'mirror': 'SMirror', 'U': 'SU', 'R': 'SR'}
 
 def op_text(op):
     f, a = op
@@ -291,7 +296,7 @@ def correspondence(ctx):
     rng = ctx.rng
     fx, fy = flip_tables(ctx)
     hist = list(C_DIRECTED)
-    for _ in range(ctx.n(300, 3000)):
+    for _ in range(ctx.n(300, 2000)):
         d = c_doc(rng)
         n = rng.choice([3, 6, 10, 16])
         hist.append((d, [c_op(rng, d[0], d[1]) for _ in range(n)]))
@@ -352,10 +357,11 @@ LEVEL_TEXT = ('Machine-checked proof (Coq, closed under the global context), PAR
               '(k undos = k steps back, k redos = k steps forward), undo_all_redo_all, new_edit_clears_redo, atomic groups (nested) are sound. '
               '(2) Per-operation soundness and the composed theorem undo_redo_history for set_char (incl. mirror mode), swap_char, add/remove/raise/'
               'lower/duplicate/clear layer, toggle visibility, move layer, set layer size, resize buffer, selection set/clear/deselect, erase selection, '
+              'make layer transparent, the nine row/column wrappers (center_line, justify_line_*, erase_row*, erase_column*), '
               'and ALL snapshot-frame area operations at once (area_op_sound: any mutation that stays inside the area; instantiated for justify '
               'left/right, center, flip x/y), on the tree with six small fix commits (UndoLayerChange, UndoSetChar on alpha-locked layers, swap_char, '
               'stale current layer, center, whole-layer scroll); equivalence = every stored cell incl. content hidden outside the layer size. '
-              '(3) Everything else (merge, crop/resize with layers, row/column, scroll area, rotate, transparent, stamp, paste/anchor, mask selection, '
+              '(3) Everything else (merge, crop/resize with layers, insert/delete row/column, scroll area, rotate, stamp down, paste/anchor, mask selection, '
               'ice/palette/font operations) is NOT proved: covered by the differential stage and by the oracle on the real code; five known defect '
               'classes there are listed as known findings.')
 LEVEL_NOTE = ('Trusted: Coq kernel + vm_compute; translator/gen_undo.py (guard expressions of Layer::set_char/restore_char/can_set_char/get_char and '
